@@ -278,14 +278,23 @@ PROPS = {
     "C19": {
         "pins": ["models.Document.__post_init__", "models.Document.tokenize", "models.CitationBase.__post_init__"],
         "contracts": ["a_common", "c18_helpers", "helpers", "filter", "refs", "annotate"],
-        "functions": ["find.extract_pincited_reference_citations", "helpers.filter_citations", "annotate.SpanUpdater.__init__", "annotate.SpanUpdater.update"],
+        "functions": ["find.extract_pincited_reference_citations", "find.find_reference_citations_from_markup", "helpers.filter_citations",
+                      "annotate.SpanUpdater.__init__", "annotate.SpanUpdater.update"],
         "extra": [_c19_extra],
         "assumptions": ["non-interference is proved as a frame argument: (syntactic, on the AST) markup flows only into Document(...) and the reference extractors, which build nothing but "
                         "ReferenceCitation objects and store to no existing object; (SMT) filter_citations keeps every non-reference citation and invents nothing (C03)",
                         "markup-derived reference offsets are SpanUpdater.update results, which stay within the cleaned text (C10 in_range)",
-                        "is_valid_name is an uninterpreted predicate"],
-        "not_covered": ["that a reference's text contains a valid party/resolved name and that markup-derived references lie after their full citation "
-                        "(needs the two independently computed diffs to be mutually inverse) -- bounded stand-in only",
+                        "is_valid_name is an uninterpreted predicate",
+                        "ROUNDTRIP (assumed, precondition of find_reference_citations_from_markup, not checked at its call site in extract_reference_citations): the two "
+                        "independently computed diffs of a Document are mutually consistent -- for every plain offset p and markup offset q >= plain_to_markup.update(p, bisect_right), "
+                        "markup_to_plain.update(q, bisect_left) >= p.  Under it, every markup-derived reference starts at or after the span start of the full citation it derives from; "
+                        "the bounded stand-in (clause reference_after_full) samples it on real diffs",
+                        "SpanUpdater.update is a deterministic function of its arguments and of self.offsets / self.updaters / the selected partial (functional contract F_update)",
+                        "E-RE-GROUP1: the capturing group of the style-tag regex takes part in every match (skeleton re-read from the AST on every run)",
+                        "Document well-formedness (precondition): plain_to_markup / markup_to_plain satisfy the SpanUpdater invariant established by SpanUpdater.__init__ "
+                        "(proved, C10) for (plain_text, markup_text) resp. (markup_text, plain_text); Document.__post_init__ itself is pinned, not verified"],
+        "not_covered": ["that a reference's text contains a valid party/resolved name -- bounded stand-in only",
+                        "ROUNDTRIP itself (a statement about two fast_diff_match_patch diffs) -- assumed; bounded stand-in only",
                         "the easter-egg input (known finding)"],
     },
     "C20": {
